@@ -285,6 +285,8 @@ def observe_real(d):
     o.append(("repr", repr(d)))
     o.append(("bool", bool(d)))
     o.append(("in_items", ("A", "1") in items, ("a", "1") in items, ("A", "x") in items, ("b", "") in items))
+    # membership probed with values that are spelt like field names (Vary: Accept ...): never a stored value here
+    o.append(("in_items_namelike", tuple((n, v) in items for n in ("A", "a", "Set-Cookie") for v in ("A", "a", "Set-Cookie", "set-cookie"))))
     return o
 
 
@@ -313,6 +315,7 @@ def observe_ref(m: Ref):
         return n.lower() in m.d and v in m.d[n.lower()][1:]
 
     o.append(("in_items", has("A", "1"), has("a", "1"), has("A", "x"), has("b", "")))
+    o.append(("in_items_namelike", tuple(has(n, v) for n in ("A", "a", "Set-Cookie") for v in ("A", "a", "Set-Cookie", "set-cookie"))))
     return o
 
 
